@@ -20,6 +20,10 @@ CHECKS = {
 }
 
 def main():
+    import glob
+    for f in sorted(glob.glob(os.path.join(ROOT, "checks", "c*.meta.json"))):
+        meta = json.load(open(f))
+        CHECKS[meta["property_id"]] = meta
     checks = []
     for pid in ALL:
         if pid not in CHECKS: continue
@@ -30,7 +34,7 @@ def main():
             "thorough_cmd": "./check %s thorough" % pid,
             "evidence_file": "evidence/%s.json" % pid,
             "replay_cmd_template": "./check %s --replay {path}" % pid,
-            "engine": c["engine"],
+            "engine": c.get("engine", "core"),
             "level_claimed": {"category": c.get("category", "model_checking"), "text": c["text"], "design_ref": "DESIGN.md section " + c["design"]},
             "level_note": c["note"],
             "technique": c["technique"],
